@@ -13,4 +13,15 @@ TABLE = {
         "technique": "Coq proof by induction over task lists / Permutation + vm_compute correspondence on recorded task lists",
     },
 }
+TABLE["C06"] = {
+    "text": "Coq theorems over the reals: for any number of legs the model of beamspread_2d_for_path equals the amplitude of the "
+            "infinitesimal ray tube (list induction with a telescoping invariant), the code's gamma is the Snell tube factor beta, "
+            "d = r in one medium, scaling by s gives 1/sqrt(s). Tie: the extracted model (OCaml float instance) is run on leg lengths, "
+            "velocities and angles read from real RayGeometry objects and compared ray by ray with arim.model.beamspread_2d_for_path "
+            "(and the reverse variant); on disagreement the extracted tube spec decides whether the input is a failing input.",
+    "note": "Trusted: Coq kernel + real-number axioms of the standard library; ExtrOcamlBasic extraction, ocaml/common/numf.ml and driver; "
+            "theorems are exact-arithmetic, binary64 rounding is outside them (tolerance 1e-11). The derivative argument that beta is the "
+            "ray-tube law (curvature_transfer) is stated in DESIGN and not yet mechanised.",
+    "technique": "Coq proof over R (list induction, field/lra) + extracted-OCaml differential correspondence",
+}
 NOT_APPLICABLE = {}
